@@ -789,6 +789,10 @@ class PDDLWriter:
             out.write(" (= (total-cost) 0)")
         for tm, le in self.problem.timed_effects.items():
             for e in le:
+                if not e.condition.simplify().is_true():
+                    raise UPProblemDefinitionError(
+                        "PDDL timed initial literals cannot be conditional."
+                    )
                 out.write(f"\n             ")
                 out.write(f" (at {str(converter.convert_fraction(tm.delay))}")
                 _write_effect(
